@@ -22,6 +22,7 @@ try:
     shutil.rmtree(env["PWSA_EVIDENCE_DIR"], ignore_errors=True)
 finally:
     subprocess.run(["git", "-C", "/repo", "checkout", "--", "."], check=True)
+    subprocess.run(["git", "-C", "/repo", "clean", "-fdq", "--", "photon_weave"], check=True)
 notes = (srcd / "notes.md").read_text()
 meta = {
     "id": f"{ID}-{k}", "property_broken": PROP, "source": "independent sub-agent given only the property text and a scratch worktree",
